@@ -164,4 +164,20 @@ def getter_callers(ctx, fields, fnkey):
                 used.add(getter_of[c])
             elif c in pred_of:
                 used.add(pred_of[c])
+    # a function that reads the packed word itself (`mv.bits >> 6 & 0xF` to index a table of the four lost-right
+    # flags) reads fields without calling their getters: which ones is not read here, none of them counts as unread
+    direct = False
+    for b in f["blocks"]:
+        if b["cleanup"]:
+            continue
+        for s in b["stmts"]:
+            for a in s["rv"].get("a", []):
+                if a.get("k") in ("copy", "move") and any(isinstance(e, dict) and e.get("name") == "bits" and (e.get("of") or "").endswith("::Move") for e in a["pl"]["p"]):
+                    direct = True
+            pl = s["rv"].get("place")
+            if pl and any(isinstance(e, dict) and e.get("name") == "bits" and (e.get("of") or "").endswith("::Move") for e in pl["p"]):
+                direct = True
+    if direct and not fnkey.startswith(MOVE):
+        ctx.lost("C02.R3", "%s reads Move.bits directly: which fields it reads is not derived from getter calls" % fnkey.rsplit("::", 1)[-1])
+        used |= set(fields)
     return used
